@@ -30,6 +30,7 @@ import Golib.HMap.Plain
 import Golib.HMap.Types
 import Golib.HMap.TableLemmas
 import Golib.HMap.Wire
+import Golib.HMap.Enum
 
 set_option linter.unusedSectionVars false
 set_option linter.unusedSimpArgs false
@@ -962,5 +963,134 @@ theorem canonSetNull_correct (m : LMap K V) (n : Nat) : runC n canonSetNull m = 
 theorem canonSetMaxP_correct (dp : PDesc K V) (pm : PMap K V) (n : Nat) :
     (runC n canonSetMax (ofP pm)).map toP = some (PMap.step hash thr dp pm (.setMax n)).1 := by
   simp [canonSetMax, runC, toP, ofP, PMap.step]
+
+/-! ### one-line accessors (`Size`, `IsEmpty`, `IsFull`, `GetFirstKey` … `GetLastValue`): every statement of the method -/
+
+/-- `return this.count` | `return this.count == 0` | `return this.max > 0 && this.max <= this.count` |
+    `if this.count == 0 { return <absent sentinel> }` | `return this.header.link_X.key` | `return this.header.link_X.value` -/
+inductive ASt
+  | retCount | retCountZero | retIsFull
+  | retAbsentIfEmpty
+  | retEndKey (e : End) | retEndValue (e : End)
+  | unknown
+  deriving DecidableEq, Repr
+
+/-- the accessor's statements on the model (the header cell of an empty order list shows "absent") -/
+def runA : List ASt → LMap K V → Option (Out K V)
+  | [], _ => none
+  | .retCount :: _, m => some (.nat m.count)
+  | .retCountZero :: _, m => some (.bool (m.count == 0))
+  | .retIsFull :: _, m => some (.bool (decide (0 < m.max ∧ m.max ≤ m.count)))
+  | .retAbsentIfEmpty :: r, m => if m.count = 0 then some .none else runA r m
+  | .retEndKey .front :: _, m => some (.ofKey m.order.head?)
+  | .retEndKey .back :: _, m => some (.ofKey m.order.getLast?)
+  | .retEndValue .front :: _, m => some (.ofVal (m.order.head?.bind (m.get hash)))
+  | .retEndValue .back :: _, m => some (.ofVal (m.order.getLast?.bind (m.get hash)))
+  | .retEndKey .unknown :: _, _ => none
+  | .retEndValue .unknown :: _, _ => none
+  | .unknown :: _, _ => none
+
+/-- the accepted forms of an end accessor: the bare return, or the return behind the empty-map guard -/
+def canonEnd (guard : Bool) (a : ASt) : List ASt := (if guard then [ASt.retAbsentIfEmpty] else []) ++ [a]
+
+theorem canonSize_correct (m : LMap K V) :
+    runA hash [ASt.retCount] m = some (LMap.step hash thr d m .size).2 ∧
+    runA hash [ASt.retCountZero] m = some (LMap.step hash thr d m .isEmpty).2 ∧
+    runA hash [ASt.retIsFull] m = some (LMap.step hash thr d m .isFull).2 := ⟨rfl, rfl, rfl⟩
+
+/-- first / last key / value, with or without the guard: the model's accessor.  The guard is redundant in every state
+    in which `count` is the length of the order list (part of the invariant): an empty order list already shows "absent". -/
+theorem canonEnd_correct (guard : Bool) (m : LMap K V) (hc : m.count = m.order.length) :
+    runA hash (canonEnd guard (.retEndKey .front)) m = some (LMap.step hash thr d m .firstKey).2 ∧
+    runA hash (canonEnd guard (.retEndKey .back)) m = some (LMap.step hash thr d m .lastKey).2 ∧
+    runA hash (canonEnd guard (.retEndValue .front)) m = some (LMap.step hash thr d m .firstValue).2 ∧
+    runA hash (canonEnd guard (.retEndValue .back)) m = some (LMap.step hash thr d m .lastValue).2 := by
+  cases guard
+  · exact ⟨rfl, rfl, rfl, rfl⟩
+  · by_cases h0 : m.count = 0
+    · have : m.order = [] := List.eq_nil_of_length_eq_zero (by rw [← hc]; exact h0)
+      simp [canonEnd, runA, h0, LMap.step, this, Out.ofKey, Out.ofVal]
+    · simp [canonEnd, runA, h0, LMap.step]
+
+/-- the plain maps' `Size` / `IsEmpty` / `IsFull` -/
+theorem canonSizeP_correct (dp : PDesc K V) (pm : PMap K V) :
+    runA hash [ASt.retCount] (ofP pm) = some (PMap.step hash thr dp pm .size).2 ∧
+    runA hash [ASt.retCountZero] (ofP pm) = some (PMap.step hash thr dp pm .isEmpty).2 ∧
+    runA hash [ASt.retIsFull] (ofP pm) = some (PMap.step hash thr dp pm .isFull).2 := ⟨rfl, rfl, rfl⟩
+
+/-! ### enumerator objects: `HasMoreElements` / `Next*`, statement by statement -/
+
+/-- plain: `for this.entry == nil && this.index > 0 { this.index--; this.entry = this.table[this.index] }` |
+    `return this.entry != nil` | `if this.entry != nil { e := this.entry; this.entry = e.next; return <e's key / value / e> }`;
+    linked: `return this.entry != nil && this.parent.header != this.entry` |
+    `if this.HasMoreElements() { e := this.entry; this.entry = e.link_next; return <e's key / value / e> }` | `return this.NextElement()`;
+    both: the trailing `panic(…)` / `return <zero>` of an exhausted enumerator -/
+inductive ESt
+  | skipLoop | retHasEntry | ifEntryTake
+  | retNotHeader | ifHasMoreTake | retNextElement
+  | exhausted | unknown
+  deriving DecidableEq, Repr
+
+/-- what a call shows -/
+inductive ERes (α : Type)
+  | hasMore (b : Bool) | elem (a : α) | exhausted
+  deriving DecidableEq, Repr
+
+/-- the plain enumerator's statements on the model `(index, rest of the current chain)` over a table -/
+def runEP (t : Table K V) : List ESt → PEnum K V → Option (PEnum K V × ERes (K × V))
+  | [], _ => none
+  | .skipLoop :: r, e => runEP t r (PEnum.advance t e)
+  | .retHasEntry :: _, e => some (e, .hasMore (!e.entry.isEmpty))
+  | .ifEntryTake :: r, e =>
+    match e.entry with
+    | c :: rest => some (⟨e.index, rest⟩, .elem c)
+    | [] => runEP t r e
+  | .exhausted :: _, e => some (e, .exhausted)
+  | _ :: _, _ => none
+
+def canonHasMoreP : List ESt := [.skipLoop, .retHasEntry]
+def canonNextP : List ESt := [.skipLoop, .ifEntryTake, .exhausted]
+
+/-- the transcribed `HasMoreElements` is `PEnum.hasMore` (and leaves the enumerator advanced past empty buckets) -/
+theorem canonHasMoreP_correct (t : Table K V) (e : PEnum K V) :
+    runEP t canonHasMoreP e = some (PEnum.advance t e, .hasMore (PEnum.hasMore t e)) := rfl
+
+/-- the transcribed `Next*` is `PEnum.next`: the element under the cursor after the skip loop, cursor moved down the chain;
+    exhausted exactly when `PEnum.next` is undefined -/
+theorem canonNextP_correct (t : Table K V) (e : PEnum K V) :
+    runEP t canonNextP e =
+      match PEnum.next t e with
+      | some (c, e') => some (e', .elem c)
+      | none => some (PEnum.advance t e, .exhausted) := by
+  simp only [canonNextP, runEP, PEnum.next]
+  cases (PEnum.advance t e).entry <;> rfl
+
+/-- the linked enumerator's statements on the model (the keys from the cursor to the header) -/
+def runEL : List ESt → LEnum K → Option (LEnum K × ERes K)
+  | [], _ => none
+  | .retNotHeader :: _, e => some (e, .hasMore (!e.rest.isEmpty))
+  | .ifHasMoreTake :: r, e =>
+    match e.rest with
+    | k :: rest => some (⟨rest⟩, .elem k)
+    | [] => runEL r e
+  | .retNextElement :: _, e =>
+    match e.rest with
+    | k :: rest => some (⟨rest⟩, .elem k)
+    | [] => some (e, .exhausted)
+  | .exhausted :: _, e => some (e, .exhausted)
+  | _ :: _, _ => none
+
+def canonHasMoreL : List ESt := [.retNotHeader]
+def canonNextL : List ESt := [.ifHasMoreTake, .exhausted]
+
+theorem canonHasMoreL_correct (e : LEnum K) : runEL canonHasMoreL e = some (e, .hasMore e.hasMore) := rfl
+
+theorem canonNextL_correct (l : List ESt) (hl : l = canonNextL ∨ l = [ESt.retNextElement]) (e : LEnum K) :
+    runEL l e =
+      match e.next with
+      | some (k, e') => some (e', .elem k)
+      | none => some (e, .exhausted) := by
+  obtain ⟨r⟩ := e
+  rcases hl with rfl | rfl <;> cases r <;> rfl
 
 end HMap.IR
